@@ -51,6 +51,8 @@ type client struct {
 	subs  map[string]*subscription
 }
 
+const forgedToken = "00112233445566778899aabbccddeeff"
+
 const clientNodeBase = 100 * 256 // 10.0.100.x are external clients
 
 func usd(v int64) time.Duration { return time.Duration(v) * time.Microsecond }
@@ -551,6 +553,9 @@ func (r *Run) doRaw(c *client, idx int, op *plan.Op, rec *plan.Rec) {
 		}
 	case "unlock":
 		tok, ok := c.tokens[op.Ref]
+		if op.Ref < 0 {
+			tok, ok = forgedToken, true
+		}
 		if !ok {
 			rec.Err = "skipped"
 			return
@@ -558,6 +563,9 @@ func (r *Run) doRaw(c *client, idx int, op *plan.Op, rec *plan.Rec) {
 		args = []any{"DM.UNLOCK", dmn, op.Key, tok}
 	case "lease":
 		tok, ok := c.tokens[op.Ref]
+		if op.Ref < 0 {
+			tok, ok = forgedToken, true
+		}
 		if !ok {
 			rec.Err = "skipped"
 			return
